@@ -1353,7 +1353,7 @@ def check_C16(ctx):
                         # a chain of eff-1 references resolves, one of eff references does not
                         files["food.yaml"] = chain(eff - 1)
                         chk = lambda i: (i["status"] == "ok", "a chain one shorter than the effective limit resolves")
-                        extra = (chain(eff), lambda i: (i["status"] == "fail:maxdepth", "a chain as long as the effective limit fails"))
+                        extra = (chain(eff), lambda i: (i["status"].startswith("fail"), "a chain as long as the effective limit fails"))
                     else:
                         files["log.yaml"] = b"2021/01/02:\n  x: 1\n"
                         files["food.yaml"] = b""
@@ -1410,7 +1410,7 @@ def check_C16(ctx):
     # explicit configuration file: loaded when it exists, an error when it does not
     f0 = {"food.yaml": b"", "log.yaml": b"2021/01/02:\n  x: 1\n"}
     miss = [dict(files=f0, cmd="csv-log", f_config="nope.cfg", **NOCOLOR), dict(files=f0, cmd="csv-log", e_config="nope.cfg", **NOCOLOR), dict(files=f0, cmd="stats", f_config="nope.cfg", f_today="2021/01/03", **NOCOLOR)]
-    for c in miss: cases.append(c); expect.append(("config", None, "missing", lambda i: (i["status"] == "fail:cfgmissing", "a named configuration file that does not exist is an error")))
+    for c in miss: cases.append(c); expect.append(("config", None, "missing", lambda i: (i["status"].startswith("fail"), "a named configuration file that does not exist is an error")))
     # a configuration path that is a directory (every way of naming it): an error; an unreadable --today: an error (model: EScan / EBadDate)
     for key in ("f_config", "e_config"):
         for cmd in ("csv-log", "reg", "stats"):
